@@ -45,6 +45,7 @@ def struct_def(td):
         d["internal_tags"][m.name] = e
     if td.string_capacity is not None:
         d["string"] = td.string_capacity
+        d["string_class"] = [td.size - 4, td.string_capacity]  # what the type used for reading and writing the tag holds: data area and capacity
     return d
 
 
@@ -122,6 +123,8 @@ def canon_struct(dt, visible_only=True):
         out["internal_tags"][m] = e
     if "string" in dt:
         out["string"] = dt["string"]
+        tc = dt.get("type_class")
+        out["string_class"] = [getattr(tc, "size", None), getattr(tc, "max_len", None)]
     return out
 
 
